@@ -129,6 +129,10 @@ def case_mixed(which, rep):
             um = fem.ThreeFieldVariation(fem.Hyperelastic(fem.yeoh, C10=0.5, C20=-0.02, C30=0.02))
         elif which == "NearlyIncompressible(NeoHooke)":
             um = fem.NearlyIncompressible(fem.NeoHooke(mu=mu), bulk=bulk)
+        elif which == "NearlyIncompressible(NeoHooke,U=K/2 ln^2 J)":
+            # the documented dUdJ= / d2UdJdJ= callables with a volumetric law whose second derivative depends on J
+            um = fem.NearlyIncompressible(fem.NeoHooke(mu=mu), bulk=bulk, dUdJ=lambda J, K: K * np.log(J) / J,
+                                          d2UdJdJ=lambda J, K: K * (1 - np.log(J)) / J ** 2)
         elif which == "NearlyIncompressible(tt.mooney_rivlin)":
             um = fem.NearlyIncompressible(fem.Hyperelastic(fem.mooney_rivlin, C10=0.4, C01=0.2), bulk=bulk)
         MM.check_mixed_blocks(run, which, um, F, p, J, None)
@@ -201,7 +205,7 @@ def case_small_strain(which, rep):
 SMALL = ["LinearElastic", "LinearElasticTensorNotation", "LinearElasticPlaneStrain", "LinearElasticPlaneStress", "LinearElasticOrthotropic",
          "Laplace", "MaterialStrain(linear_elastic)", "Plasticity[elastic-step]", "Plasticity[plastic-step]"]
 MIXED = ["ThreeFieldVariation(NeoHooke)", "ThreeFieldVariation(NeoHookeCompressible)", "ThreeFieldVariation(tt.yeoh)",
-         "NearlyIncompressible(NeoHooke)", "NearlyIncompressible(tt.mooney_rivlin)"]
+         "NearlyIncompressible(NeoHooke)", "NearlyIncompressible(NeoHooke,U=K/2 ln^2 J)", "NearlyIncompressible(tt.mooney_rivlin)"]
 
 NAMES = ['NeoHooke(mu,bulk)', 'NeoHooke(mu)', 'Volumetric(bulk)', 'NeoHookeCompressible(mu,lmbda)', 'NeoHookeCompressible(mu)',
          'LinearElasticLargeStrain(E,nu)', 'OgdenRoxburgh(NeoHooke)', 'Composite(NeoHooke&Volumetric)', 'tt.neo_hooke', 'tt.mooney_rivlin',
